@@ -13,6 +13,14 @@
 //!   the second part means the crate does not read a well-formed foreign archive as the theorem says.
 //! * oracle (implementation only): the crate's view is compared with the layout parameters by code
 //!   that knows nothing of the Lean side; a sample of cases is also opened with CPython `zipfile`.
+//!
+//! Generalised layouts (`Spec.Zip.LayoutG`, finding F7): a line may carry `order=` (the entry indices the central
+//! directory lists, in ITS order: permutation, sub-list, repetitions), `sat=` (1: markers in the plain end record
+//! next to forced ZIP64 end records, 0: the real values), `ext=` (extensible data sector of the ZIP64 end record),
+//! `egap=` (bytes in front of the ZIP64 end record), `zp=` / `zd=` (per entry: number of foreign central extra
+//! records in front of the ZIP64 record / 1 = it carries the disk-start field).  The driver then builds with
+//! `Spec.Zip.buildG` and answers `Spec.Zip.viewOfG` (theorem `reader_on_wf_cd_order`); this side builds with
+//! mkzip's `cd_order`, `eocd_unsaturated`, `end64_ext`, `gap_before_end`, `zip64_central_pos`, `zip64_disk`.
 use super::{GenOut, OracleFailure, Stream};
 use crate::mkzip::{self, Desc, Entry, Layout};
 use crate::prng::Rng;
@@ -92,7 +100,23 @@ fn layout_line(l: &Layout, n_distinct: usize, rep: usize, py: bool) -> String {
     for (i, e) in l.entries.iter().take(n_distinct).enumerate() {
         s += &format!(" e{}={}", i, entry_param(e));
     }
+    // generalised parameters: only written when used, so that plain layouts keep going through `Spec.Zip.build`
+    let list = |v: Vec<String>| if v.is_empty() { "-".to_string() } else { v.join(",") };
+    if let Some(o) = &l.cd_order { s += &format!(" order={}", list(o.iter().map(|i| i.to_string()).collect())); }
+    if l.eocd_unsaturated { s += " sat=0"; }
+    if !l.end64_ext.is_empty() { s += &format!(" ext={}", hex(&l.end64_ext)); }
+    if !l.gap_before_end.is_empty() { s += &format!(" egap={}", hex(&l.gap_before_end)); }
+    if l.entries.iter().any(|e| e.zip64_central_pos != 0) { s += &format!(" zp={}", list(l.entries.iter().map(|e| e.zip64_central_pos.to_string()).collect())); }
+    if l.entries.iter().any(|e| e.zip64_disk.is_some()) { s += &format!(" zd={}", list(l.entries.iter().map(|e| (e.zip64_disk.is_some() as u8).to_string()).collect())); }
     s
+}
+
+/// the indices the central directory lists, in its order (indices beyond the entry list name nothing)
+fn listed(l: &Layout) -> Vec<usize> {
+    match &l.cd_order {
+        Some(o) => o.iter().cloned().filter(|i| *i < l.entries.len()).collect(),
+        None => (0..l.entries.len()).collect(),
+    }
 }
 
 fn parse_layout(line: &str) -> Option<(Layout, bool)> {
@@ -114,6 +138,20 @@ fn parse_layout(line: &str) -> Option<(Layout, bool)> {
     l.zip64_eocd = get_u64(&a, "z64end")? == 1;
     l.end64_versions = (get_u64(&a, "v64a").unwrap_or(45) as u16, get_u64(&a, "v64b").unwrap_or(45) as u16);
     l.trailing = get_hex(&a, "trailing")?;
+    let nats = |k: &str| -> Option<Option<Vec<usize>>> {
+        match a.get(k) {
+            None => Some(None),
+            Some(s) if s == "-" || s.is_empty() => Some(Some(vec![])),
+            Some(s) => s.split(',').map(|x| x.parse::<usize>().ok()).collect::<Option<Vec<_>>>().map(Some),
+        }
+    };
+    if let Some(o) = nats("order")? { l.cd_order = Some(o); }
+    l.eocd_unsaturated = a.get("sat").map(|s| s == "0").unwrap_or(false);
+    if a.contains_key("ext") { l.end64_ext = get_hex(&a, "ext")?; }
+    // `LayoutG.gap`: the bytes in front of the ZIP64 end record exist only when that record does
+    if a.contains_key("egap") && l.zip64_eocd { l.gap_before_end = get_hex(&a, "egap")?; }
+    if let Some(zp) = nats("zp")? { for (e, p) in l.entries.iter_mut().zip(zp) { e.zip64_central_pos = p; } }
+    if let Some(zd) = nats("zd")? { for (e, d) in l.entries.iter_mut().zip(zd) { if d == 1 { e.zip64_disk = Some(0); } } }
     Some((l, get_u64(&a, "py").unwrap_or(0) == 1))
 }
 
@@ -332,6 +370,85 @@ fn rand_layout(r: &mut Rng) -> (Layout, bool) {
     (l, py_ok)
 }
 
+/// One random GENERALISED layout (`Spec.Zip.LayoutG`): a `rand_layout` with any of - the directory listing the
+/// entries in another order (reversed, rotated, shuffled), only some of them, or an arbitrary index list with
+/// repetitions and indices that name nothing; the central ZIP64 record behind 0..k+1 of the foreign central
+/// records (beyond k: clamped) and/or with the disk-start field; forced ZIP64 end records with the real values
+/// kept in the plain end record, an extensible data sector, bytes in front of the ZIP64 end record.
+/// Returns the layout, whether CPython can be expected to read it the same way, and the features used.
+fn rand_layout_g(r: &mut Rng) -> (Layout, bool, Vec<&'static str>) {
+    let (mut l, mut py_ok) = loop {
+        let (l, p) = rand_layout(r);
+        if l.entries.len() >= 2 || (l.entries.len() == 1 && r.chance(1, 3)) { break (l, p); }
+    };
+    let n = l.entries.len();
+    let mut feats: Vec<&'static str> = vec![];
+    let mut order: Vec<usize> = (0..n).collect();
+    match r.below(8) {
+        0 | 1 => {}
+        2 => { order.reverse(); }
+        3 => { let k = r.range(1, n.max(2) as u64) as usize % n.max(1); order.rotate_left(k); }
+        4 | 5 => { for i in (1..n).rev() { let j = r.below(i as u64 + 1) as usize; order.swap(i, j); } }
+        6 => {
+            // a sub-list, in shuffled order: entries the directory no longer names stay in the file as dead data
+            for i in (1..n).rev() { let j = r.below(i as u64 + 1) as usize; order.swap(i, j); }
+            let keep = r.below(n as u64 + 1) as usize;
+            order.truncate(keep);
+            feats.push("order.sublist");
+        }
+        _ => {
+            // an arbitrary index list: repetitions, indices beyond the entry list (they name nothing)
+            let k = r.below(2 * n as u64 + 2) as usize;
+            order = (0..k).map(|_| r.below(n as u64 + 2) as usize).collect();
+            feats.push("order.arbitrary");
+            py_ok = false;
+        }
+    }
+    if order.iter().enumerate().any(|(i, j)| i != *j) || order.len() != n {
+        if !feats.iter().any(|f| f.starts_with("order.")) { feats.push("order.permutation"); }
+        l.cd_order = Some(order);
+    }
+    for e in l.entries.iter_mut() {
+        if r.chance(1, 2) {
+            if e.central_extra.is_empty() || r.chance(1, 2) { e.central_extra = rand_extra(r); if r.chance(1, 2) { let more = rand_extra(r); e.central_extra.extend_from_slice(&more); } }
+            // number of complete records in the foreign extra data
+            let (mut k, mut cut) = (0usize, 0usize);
+            while cut + 4 <= e.central_extra.len() {
+                let len = u16::from_le_bytes([e.central_extra[cut + 2], e.central_extra[cut + 3]]) as usize;
+                if cut + 4 + len > e.central_extra.len() { break; }
+                cut += 4 + len; k += 1;
+            }
+            if e.zip64_central == (false, false, false) && r.chance(3, 4) {
+                e.zip64_central = *r.pick(&[(true, false, false), (false, true, false), (false, false, true), (true, true, false), (true, true, true), (false, true, true), (true, false, true)]);
+            }
+            e.zip64_central_pos = r.below(k as u64 + 2) as usize;
+            if e.zip64_central_pos != 0 && !feats.contains(&"z64pos") { feats.push("z64pos"); }
+        }
+        if r.chance(1, 4) {
+            e.zip64_disk = Some(0);
+            py_ok = false;
+            if !feats.contains(&"z64disk") { feats.push("z64disk"); }
+        }
+    }
+    if r.chance(1, 2) {
+        l.zip64_eocd = true;
+        l.trailing.clear();
+        if r.chance(1, 2) { l.eocd_unsaturated = true; feats.push("eocd-unsaturated"); }
+        if r.chance(2, 3) {
+            // APPNOTE 4.3.14.2: header id (2 bytes), data size (4 bytes), data
+            let pl = { let n = r.below(30) as usize; no_pk(r, n) };
+            let mut x = 0x0065u16.to_le_bytes().to_vec();
+            x.extend_from_slice(&(pl.len() as u32).to_le_bytes());
+            x.extend_from_slice(&pl);
+            l.end64_ext = x;
+            feats.push("end64-ext");
+            py_ok = false;
+        }
+        if r.chance(1, 2) { l.gap_before_end = { let n = r.range(1, 12) as usize; no_pk(r, n) }; feats.push("end64-gap"); py_ok = false; }
+    }
+    (l, py_ok, feats)
+}
+
 // ------------------------------------------------------------------------------------------
 // oracle helpers (independent of the Lean side)
 
@@ -404,7 +521,7 @@ impl Stream for SpecStream {
 
     fn gen(&self, seed: u64, tier: &str) -> GenOut {
         let mut g = GenOut::default();
-        g.rule = "random well-formed layouts from one parameter encoding (0-9 entries: stored/deflate/unsupported methods, declared sizes at the 2^32 boundary, every descriptor kind, forced ZIP64 subsets, local ZIP64, foreign extra records local/central, gaps, DOS/Unix/other hosts, CP437/UTF-8/invalid-UTF-8 names, duplicates, encrypted flag, wrong CRC; prefix 0-9000 bytes, gap before the directory, comment, forced ZIP64 end records with arbitrary versions, trailing bytes) + hand-made boundary layouts (65535/65536 entries, empty archive, every single feature alone). Built by mkzip.rs (impl side) and Spec.Zip.build (model side): bytes compared; the real crate's view compared with Spec.Zip.viewOf; a sample is opened with CPython zipfile. distinct = distinct op lines; non-trivial = the crate opens the archive".into();
+        g.rule = "random well-formed layouts from one parameter encoding (0-9 entries: stored/deflate/unsupported methods, declared sizes at the 2^32 boundary, every descriptor kind, forced ZIP64 subsets, local ZIP64, foreign extra records local/central, gaps, DOS/Unix/other hosts, CP437/UTF-8/invalid-UTF-8 names, duplicates, encrypted flag, wrong CRC; prefix 0-9000 bytes, gap before the directory, comment, forced ZIP64 end records with arbitrary versions, trailing bytes) + hand-made boundary layouts (65535/65536 entries, empty archive, every single feature alone). Built by mkzip.rs (impl side) and Spec.Zip.build (model side): bytes compared; the real crate's view compared with Spec.Zip.viewOf; a sample is opened with CPython zipfile. Generalised layouts (classes g.*; the driver builds with Spec.Zip.buildG and answers viewOfG): the directory lists the entries reversed / rotated / shuffled, only some of them, or by an arbitrary index list with repetitions and indices naming nothing (order=); the central ZIP64 record behind 0..k+1 of the foreign central records and with the disk-start field (zp=, zd=); forced ZIP64 end records with the real values kept in the plain end record (sat=0), an extensible data sector (ext=), bytes in front of the ZIP64 end record (egap=). distinct = distinct op lines; non-trivial = the crate opens the archive".into();
         let thorough = tier == "thorough";
         let n_rand = if thorough { 12000 } else { 500 };
         let mut py_budget = if thorough { 300 } else { 14 };
@@ -452,6 +569,43 @@ impl Stream for SpecStream {
             let kind = if l.zip64_eocd { "rand.z64end" } else if !l.trailing.is_empty() { "rand.trailing" } else if !l.prefix.is_empty() { "rand.prefix" } else { "rand.plain" };
             g.push(kind, layout_line(&l, l.entries.len(), 1, py));
         }
+        // generalised layouts (F7): the driver builds with `Spec.Zip.buildG` and answers `viewOfG`
+        {
+            let base = || Entry::stored(b"f.txt", b"hello spec");
+            let two = || { let mut b2 = Entry::stored(b"g.txt", b"second"); b2.central_extra = vec![0x55, 0x54, 1, 0, 7, 0xfe, 0xca, 2, 0, 8, 9]; vec![base(), b2] };
+            let mut singles: Vec<(&str, Layout)> = vec![];
+            { let mut l = Layout::new(two()); l.cd_order = Some(vec![1, 0]); singles.push(("reversed", l)); }
+            { let mut l = Layout::new(two()); l.cd_order = Some(vec![1]); singles.push(("sublist", l)); }
+            { let mut l = Layout::new(two()); l.cd_order = Some(vec![]); singles.push(("none-listed", l)); }
+            { let mut l = Layout::new(two()); l.cd_order = Some(vec![1, 1, 7, 0]); singles.push(("repeated", l)); }
+            for pos in 0..4usize { for z in [1u8, 2, 4, 7] {
+                let mut l = Layout::new(two()); l.entries[1].zip64_central = (z & 1 == 1, z & 2 == 2, z & 4 == 4); l.entries[1].zip64_central_pos = pos; singles.push(("z64pos", l));
+            } }
+            { let mut l = Layout::new(two()); l.entries[0].zip64_disk = Some(0); l.entries[1].zip64_disk = Some(0); l.entries[1].zip64_central_pos = 1; l.entries[1].zip64_central = (true, true, true); singles.push(("z64disk", l)); }
+            for (sat, ext, gap) in [(true, false, false), (false, false, false), (true, true, false), (true, false, true), (false, true, true)] {
+                let mut l = Layout::new(two()); l.zip64_eocd = true; l.eocd_unsaturated = !sat;
+                if ext { l.end64_ext = vec![0x65, 0, 2, 0, 0, 0, 7, 7]; }
+                if gap { l.gap_before_end = vec![1, 2, 3]; }
+                l.prefix = vec![7; 9];
+                singles.push(("z64end", l));
+            }
+            for (k, l) in singles {
+                let py = l.cd_order.as_ref().map(|o| o.iter().all(|i| *i < 2) && { let mut q = o.clone(); q.dedup(); q.len() == o.len() }).unwrap_or(true)
+                    && l.end64_ext.is_empty() && l.gap_before_end.is_empty() && l.entries.iter().all(|e| e.zip64_disk.is_none());
+                g.push(&format!("g.single.{k}"), layout_line(&l, l.entries.len(), 1, py));
+            }
+        }
+        let n_g = if thorough { 8000 } else { 350 };
+        let mut py_budget_g = if thorough { 200 } else { 10 };
+        for idx in 0..n_g {
+            let mut r = super::rng_for(seed, "spec.g", idx);
+            let (l, py_ok, feats) = rand_layout_g(&mut r);
+            for f in &feats { *g.dist.entry(format!("gen.feature.{f}")).or_insert(0) += 1; }
+            let py = py_ok && py_budget_g > 0 && r.chance(1, 4);
+            if py { py_budget_g -= 1; }
+            let kind = if feats.iter().any(|f| f.starts_with("order.")) { "g.order" } else if feats.iter().any(|f| f.starts_with("z64")) { "g.z64place" } else if l.zip64_eocd { "g.z64end" } else { "g.plain" };
+            g.push(kind, layout_line(&l, l.entries.len(), 1, py));
+        }
         g
     }
 
@@ -480,7 +634,9 @@ impl Stream for SpecStream {
         }
         let (l, py) = match parse_layout(line) { Some(x) => x, None => return done(&msgs) };
         let b = mkzip::build(&l);
-        let cnt = l.entries.len();
+        // what the directory lists, in its order: entry `k` of the reader's view is entry `ord[k]` of the layout
+        let ord = listed(&l);
+        let cnt = ord.len();
         let parts: Vec<&str> = resp.split(" | ").collect();
         let want_open = format!("open n={} off={} comment={}", cnt, l.prefix.len(), hex(&l.comment));
         if parts.len() < 2 || parts[1] != want_open {
@@ -495,7 +651,7 @@ impl Stream for SpecStream {
         }
         // central positions: walk the central directory the builder laid out
         for (k, i) in (0..cnt).filter(|&i| shown(cnt, i)).enumerate() {
-            let e = &l.entries[i];
+            let e = &l.entries[ord[i]];
             let ent = ents[k];
             let chk = |key: &str, want: String| {
                 match field(ent, key) {
@@ -514,16 +670,22 @@ impl Stream for SpecStream {
             chk("us", e.usize_.to_string());
             chk("mode", expected_mode(e.made_by, e.ext_attrs));
             chk("vmb", (e.made_by & 0xFF).to_string());
-            chk("hs", b.offsets[i].0.to_string());
-            chk("ds", b.offsets[i].1.to_string());
+            chk("hs", b.offsets[ord[i]].0.to_string());
+            chk("ds", b.offsets[ord[i]].1.to_string());
             chk("rawread", format!("ok:{}:{}", crc32fast::hash(&e.data), e.data.len()));
             if e.comment.iter().all(|b| *b < 0x80) { chk("comment", hex(&e.comment)); }
             match field(ent, "extra") {
                 Some(x) => {
+                    // the recorded foreign records with ONE ZIP64 record (4-byte header + 0..3 64-bit fields +
+                    // an optional 4-byte disk number) inserted between two of them
                     let xb = unhex(x).unwrap_or_default();
-                    let zl = xb.len().saturating_sub(e.central_extra.len());
-                    if !xb.ends_with(&e.central_extra) || ![0usize, 12, 20, 28].contains(&zl) {
-                        fail(format!("entry {i}: extra data {x} is not (ZIP64 record +) the recorded extra {}", hex(&e.central_extra)));
+                    let ce = &e.central_extra;
+                    let zl = xb.len().saturating_sub(ce.len());
+                    let fits = |cut: usize| xb.len() == ce.len() + zl && xb[..cut] == ce[..cut] && xb[cut + zl..] == ce[cut..]
+                        && (zl == 0 || (xb[cut..cut + 2] == [1, 0] && u16::from_le_bytes([xb[cut + 2], xb[cut + 3]]) as usize == zl - 4));
+                    let z_ok = [0usize, 8, 12, 16, 20, 24, 28, 32].contains(&zl) && (0..=ce.len()).any(|cut| fits(cut));
+                    if !z_ok {
+                        fail(format!("entry {i}: extra data {x} is not the recorded extra {} with one ZIP64 record inserted", hex(ce)));
                     }
                 }
                 None => fail(format!("entry {i}: no extra field reported")),
@@ -537,10 +699,10 @@ impl Stream for SpecStream {
             // by_name: the LAST entry whose decoded name equals this one's
             if let Some(nm) = field(ent, "name") {
                 // entries with an equal raw name and equal UTF-8 flag decode equally
-                let last = (0..cnt).rev().find(|&j| l.entries[j].name == e.name && (l.entries[j].flags & 0x0800) == (e.flags & 0x0800));
+                let last = (0..cnt).rev().find(|&j| l.entries[ord[j]].name == e.name && (l.entries[ord[j]].flags & 0x0800) == (e.flags & 0x0800));
                 if let Some(j) = last {
-                    let ej = &l.entries[j];
-                    let same_decoded_later = (j + 1..cnt).any(|q| l.entries[q].name.iter().all(|b| *b < 0x80) && l.entries[q].name == e.name);
+                    let ej = &l.entries[ord[j]];
+                    let same_decoded_later = (j + 1..cnt).any(|q| l.entries[ord[q]].name.iter().all(|b| *b < 0x80) && l.entries[ord[q]].name == e.name);
                     if !same_decoded_later && shown(cnt, j) {
                         let kj = (0..cnt).filter(|&q| shown(cnt, q)).position(|q| q == j).unwrap();
                         let want = if ej.flags & 1 == 1 { "err:passwordrequired".to_string() }
@@ -563,7 +725,8 @@ impl Stream for SpecStream {
                 None => {}
                 Some(p) => {
                     let mut want = format!("n={} comment={}", cnt, hex(&l.comment));
-                    for (i, e) in l.entries.iter().enumerate() {
+                    for &i in &ord {
+                        let e = &l.entries[i];
                         want += &format!(" {}:{}:{}:{}:{}", b.offsets[i].0, e.crc, e.data.len(), e.usize_, e.method);
                     }
                     want += " test=None";
